@@ -20,6 +20,27 @@ def api(draw, max_ops=5, links=None):
             "probe": draw(st.sampled_from([None, None, "bad-gzip", "drop", "redirect-loop", "status-400", "truncated"]))}
 
 
+WOBBLY = {"n": 0}
+
+
+def register_wobbly():
+    """Registers the `vfw-wobbly` string format: its first two executions draw one value more than the later ones, which
+    makes Hypothesis raise a plain `Flaky` (FlakyStrategyDefinition, not an exception group) in the middle of a scenario."""
+    import schemathesis
+
+    WOBBLY["n"] = 0
+
+    @st.composite
+    def wobbly(draw):
+        WOBBLY["n"] += 1
+        flag = draw(st.booleans())
+        if WOBBLY["n"] <= 2:
+            draw(st.integers(min_value=0, max_value=3))
+        return "yes" if flag else "no"
+
+    schemathesis.openapi.format("vfw-wobbly", wobbly())
+
+
 def probe_reply(api_: dict):
     from vfw.harness import loopback
 
@@ -43,7 +64,10 @@ def build_doc(api_: dict) -> dict:
         q = {"name": "q", "in": "query", "schema": {"type": "integer"}}
         if op["bounded"]:
             q["schema"].update(minimum=0, maximum=3)
-        if op["with_example"]:
+        if op.get("wobbly"):
+            # a user-registered string format whose strategy depends on outside state (vfw.gen.runs.register_wobbly)
+            q = {"name": "q", "in": "query", "required": True, "schema": {"type": "string", "format": "vfw-wobbly"}}
+        elif op["with_example"]:
             q["example"] = 2
         paths[op["path"]] = {"get": {"parameters": [] if op.get("bare") else [q], "responses": {"200": {"description": "ok", "content": {"application/json": {"schema": {"type": "object", "properties": {"id": {"type": "integer"}}, "required": ["id"]}}}}}}}
     if api_["links"]:
